@@ -2,7 +2,7 @@
    Iter / Proofs.  Layer A: the trie as a pure tree (every node resolved); [H] is any hash function. *)
 From Coq Require Import String List Sorted NArith Arith.
 From V.Base Require Import Hex.
-From V.C02 Require Import Model Lemmas Sem InsDel Unique Iter Proofs Spec SpecProofs SpecPerm ModelB ProofsB Cache CacheProofs Binding Keccak.
+From V.C02 Require Import Model Lemmas Sem InsDel Unique Iter Proofs Spec SpecProofs SpecPerm ModelB ProofsB Cache CacheProofs CacheTotal Binding Keccak.
 Import ListNotations.
 Local Open Scope N_scope.
 
@@ -205,18 +205,27 @@ Proof. exact binding_content. Qed.
 Print Assumptions C02_root_binds_content.
 
 (* Layer B, cache (Cache.v: node flags, hash placeholders, cache generations, NodeDatabase).
-   PARTIAL refinement: on tries whose nodes are all in memory (no hash placeholder, i.e. before any
-   Commit unloads or a reopen loads lazily), every history of TryUpdate / TryDelete / TryGet / Hash that
-   the cache model completes without Panic / NoFuel yields exactly the reads and roots of layer A:
-   the cached hashes and the dirty-flag discipline are sound (a modified path always gets fresh flags,
-   a cached hash is only ever reused for unchanged content).  NOT covered by this theorem: Commit,
-   canUnload, lazy resolveHash, the NodeDatabase (those are held to the code by the HarnessB
-   correspondence, including exact memory/disk node sets, and the eager reload theorem above), and
-   totality (that Panic / NoFuel cannot occur on well-formed input). *)
-Theorem C02_cache_refines_partial : forall (H : bytes -> bytes) (d : ndb) evs l,
-  Forall ev_ok evs -> execB H d empty_trie evs = OK l -> l = execA H Empty evs.
-Proof. intros H d evs l Hok Hx. exact (execB_refines H d evs empty_trie Empty l (inv_empty H) Hok Hx). Qed.
+   PARTIAL refinement (the gap is the scope, not a side condition): on tries whose nodes are all in
+   memory (no hash placeholder, i.e. before a Commit unloads or a reopen loads lazily), for every
+   history of TryUpdate / TryDelete / TryGet / Hash over byte keys and for every database, the cache
+   model completes (no Panic: the Go "invalid node" / index-out-of-range panics are unreachable; no
+   NoFuel; no Missing) and yields exactly the reads and roots of layer A: cached hashes and the
+   dirty-flag discipline are sound (a modified path always gets fresh flags, a cached hash is only ever
+   reused for unchanged content).  NOT covered: Commit, canUnload, lazy resolveHash and the
+   NodeDatabase (held to the code by the HarnessB correspondence, including exact memory/disk node
+   sets, and by the eager reload theorem C02_commit_reopen). *)
+Theorem C02_cache_refines_partial : forall (H : bytes -> bytes) (d : ndb) evs,
+  Forall ev_ok evs -> execB H d empty_trie evs = OK (execA H Empty evs).
+Proof. intros H d evs Hok. exact (execB_total_refines H d evs empty_trie Empty (inv_empty H) Hok). Qed.
 Print Assumptions C02_cache_refines_partial.
+
+(* the exported API of the cache model never panics / runs out of fuel on a trie reached that way *)
+Theorem C02_cache_no_panic_partial : forall (H : bytes -> bytes) (d : ndb) t n, Inv H t n ->
+  forall key v, bytes_ok key ->
+  (exists t', try_updateB d t key v = OK t') /\ (exists t', try_deleteB d t key = OK t') /\
+  (exists r t', try_getB d t key = (OK r, t')).
+Proof. exact api_total. Qed.
+Print Assumptions C02_cache_no_panic_partial.
 
 (* the pieces: reads do not depend on flags; Hash with coherent flags returns the layer-A root *)
 Theorem C02_cache_get_partial : forall d gen fuel c key v c' dr, hash_free c = true ->
